@@ -160,6 +160,21 @@ class D16(Extra):
                     t += rng.choice([2, 4, 6])
                 s2.append(list(s) + ext)
             out.append({'f': f, 'nv': nv, 'sigs': s1, 'sigs2': s2, 'n': max(len(s) for s in s1)})
+        # bounded until with a positive lower bound: a short pulse of the right operand, silence until the end of w1, a late rise in the extension
+        for _ in range(n // 4):
+            a = rng.choice([2, 4])
+            b = a + rng.choice([2, 4])
+            f = ('untilt', a, b, ('pred', 'geq', ('var', 0), ('const', 0)), ('pred', 'geq', ('var', 1), ('const', 0)))
+            if rng.random() < 0.3:
+                f = (rng.choice(['and', 'or']), f, ('pred', 'leq', ('var', 0), ('const', 9)))
+            t1 = rng.choice([2, 4, 6])
+            t2 = t1 + rng.choice([2, 4])
+            end = t2 + b + rng.choice([8, 12, 16])
+            p = [[0, rng.randint(1, 5)], [end, rng.randint(1, 5)]]
+            q = [[0, -rng.randint(1, 3)], [t1, rng.randint(1, 4)], [t2, -rng.randint(1, 3)], [end, -1]]
+            s1 = [p, q]
+            s2 = [p + [[end + 4, 3]], q + [[end + 4, rng.randint(5, 9)], [end + 12, 2]]]
+            out.append({'f': f, 'nv': 2, 'sigs': s1, 'sigs2': s2, 'n': 4})
         return out
 
     def normalize(self, c):
